@@ -98,7 +98,7 @@ func genBatchCase(r *hx.Rng, nextID *int, allowRetry *int) (bcfg, []behaviour, [
 		case x < 8 && cfg.lingerPos && ticks < 3:
 			events = append(events, bevent{typ: 'T'})
 			ticks++
-		case x < 12 && closes == 0, x < 13 && closes == 1 && malformed:
+		case x < 11 && closes == 0 && i > nev/2, x < 13 && closes == 1 && malformed:
 			events = append(events, bevent{typ: 'X'})
 			closes++
 		default:
@@ -167,30 +167,43 @@ func doStreamCase(o *hx.Out, events []string) {
 }
 
 func genStreamCase(r *hx.Rng) []string {
-	n := 1 + r.Intn(14)
+	n := 1 + r.Intn(16)
 	var ev []string
 	broken := false
 	f := 0
+	outstanding := 0 // successfully sent requests not yet answered (an unsolicited response ends the receive loop)
 	for i := 0; i < n; i++ {
 		x := r.Intn(100)
 		switch {
-		case x < 45:
+		case x < 42:
 			f++
-			ok := !broken && r.Chance(93)
+			ok := !broken && r.Chance(95)
 			if !ok {
 				broken = true
+			} else {
+				outstanding++
 			}
 			ev = append(ev, fmt.Sprintf("s%d:%d", f, map[bool]int{true: 1, false: 0}[ok]))
-		case x < 80:
+		case x < 86:
+			if outstanding == 0 && !r.Chance(12) {
+				continue
+			}
+			if outstanding > 0 {
+				outstanding--
+			}
 			ev = append(ev, fmt.Sprintf("r%d", 100+i))
-		case x < 88:
+		case x < 89:
 			ev = append(ev, "e")
-		case x < 96:
+		case x < 94:
 			ev = append(ev, "x")
 			broken = true
 		default:
-			// a burst of responses (more than requests)
+			// a burst of responses (possibly more than requests)
 			ev = append(ev, fmt.Sprintf("r%d", 200+i), fmt.Sprintf("r%d", 300+i))
+			outstanding -= 2
+			if outstanding < 0 {
+				outstanding = 0
+			}
 		}
 	}
 	return append(ev, "x")
